@@ -616,6 +616,10 @@ class World:
             init = self.repo.resolve_method(clsname, "__init__", after=init.cls)
         if init is not None:
             self.call_repo(eng, init, [obj] + args, kwargs, clsname, node)
+            c = self.find_contract(init.qualname, clsname)
+            if c is not None and not c.inline and init.qualname not in (eng.contract.opts.get("inline_callees", ()) if eng.contract else ()):
+                # constructed through a contract: fields the contract says nothing about are unknown, not absent
+                obj.fresh_alloc = False
         return obj
 
     def bind_params(self, eng, fi, args, kwargs, fr_module):
